@@ -11,6 +11,7 @@ import canon
 import impl
 import pcommon
 
+TECHNIQUE = 'Lean 4: non-interference theorem for every schedule and step function under the private-writes hypothesis; the hypothesis is checked on the implementation by deep fingerprints of all shared objects around parses (nested, threaded); history oracle'
 LEAN_TARGET = "CxxModel.Props.C15"
 THEOREMS = ["Cxx.C15_noninterference", "Cxx.C15_shared_constant", "Cxx.C15_history_independent", "Cxx.noninterference"]
 ANCHORS = ["lexer.py:", "_ply/lex.py:", "lex.py:", "parser.py:CxxParser.__init__", "parser.py:CxxParser.<attrs>", "parser.py:<module>", "visitor.py:", "tokfmt.py:<module>",
